@@ -167,7 +167,7 @@ func c04RunBuy(env world.Env, g c04Group, b c04Buy) (vs []mc.Viol, class string)
 		if err := w.App.BankKeeper.SendCoins(ctx, w.A("funder").Addr, payer.Addr, sdk.NewCoins(sdk.NewCoin("ujkl", paid.SubRaw(1)))); err != nil {
 			panic(err)
 		}
-		if b.referral == "self" {
+		if b.referral == "self" || b.referral == "self-caps" {
 			refStr = payer.Bech
 		}
 	}
